@@ -110,6 +110,8 @@ def run_op(rule, op):
         return [2, 1]
     except TypeError:
         return [2, 2]
+    except ValueError:
+        return [2, 3]
     except DeadlockDetected:
         return ["DEADLOCK"]
     except _Abort:
